@@ -31,6 +31,8 @@ type Step struct {
 	Fail       bool   `json:"fail,omitempty"`         // connect: the service's Assigner fails
 	RecvFailAt int    `json:"recv_fail_at,omitempty"` // connect: the k-th Recv on this connection fails with an injected error
 	Gate       bool   `json:"gate,omitempty"`         // call: parking handler
+	Note       bool   `json:"note,omitempty"`         // call: sent as a notification
+	Batch      []Step `json:"batch,omitempty"`        // batch: the members (call steps) of one array
 	Err        string `json:"err,omitempty"`          // acceptfail: netclosed chanclosed other
 	Burst      bool   `json:"burst,omitempty"`
 	D          int    `json:"d,omitempty"` // cancel: fake nanoseconds to wait first (lands between two hook sites of a starting connection)
@@ -45,7 +47,13 @@ func (s Step) String() string {
 	case "connect":
 		return fmt.Sprintf("%sconnect #%d assignerfails=%v", b, s.K, s.Fail)
 	case "call":
-		return fmt.Sprintf("%scall conn #%d nonce %d gate=%v", b, s.K, s.N, s.Gate)
+		return fmt.Sprintf("%scall conn #%d nonce %d gate=%v note=%v", b, s.K, s.N, s.Gate, s.Note)
+	case "batch":
+		var ms []string
+		for _, m := range s.Batch {
+			ms = append(ms, fmt.Sprintf("nonce %d gate=%v note=%v", m.N, m.Gate, m.Note))
+		}
+		return fmt.Sprintf("%sbatch conn #%d [%s]", b, s.K, strings.Join(ms, "; "))
 	case "cbnote":
 		return fmt.Sprintf("%scbnote conn #%d nonce %d (a notification whose handler awaits a callback nobody answers)", b, s.K, s.N)
 	case "release":
@@ -137,8 +145,12 @@ func (a lassign) Assign(ctx context.Context, method string) jrpc2.Handler {
 			a.w.log(event{kind: "exit", k: a.id, n: p.N, flag: "note", err: fmt.Sprint(err)})
 			return nil, nil
 		}
-		a.w.log(event{kind: "enter", k: a.id, n: p.N})
-		defer func() { a.w.log(event{kind: "exit", k: a.id, n: p.N, err: fmt.Sprint(ctx.Err())}) }()
+		nflag := ""
+		if req.IsNotification() {
+			nflag = "note" // its context does not end when the server stops
+		}
+		a.w.log(event{kind: "enter", k: a.id, n: p.N, flag: nflag})
+		defer func() { a.w.log(event{kind: "exit", k: a.id, n: p.N, flag: nflag, err: fmt.Sprint(ctx.Err())}) }()
 		if method == "ret" {
 			return p.N, nil
 		}
@@ -439,13 +451,26 @@ func run(t *testing.T, sc Scenario) engine.Verdict {
 					settle()
 					resolve()
 					continue
-				case "call":
+				case "call", "batch":
 					if c := conns[st.K]; c != nil {
-						method := "ret"
-						if st.Gate {
-							method = "gate"
+						member := func(m Step) string {
+							method := "ret"
+							if m.Gate {
+								method = "gate"
+							}
+							if m.Note {
+								return fmt.Sprintf(`{"jsonrpc":"2.0","method":%q,"params":{"N":%d}}`, method, m.N)
+							}
+							return fmt.Sprintf(`{"jsonrpc":"2.0","id":%d,"method":%q,"params":{"N":%d}}`, m.N, method, m.N)
 						}
-						rec := fmt.Sprintf(`{"jsonrpc":"2.0","id":%d,"method":%q,"params":{"N":%d}}`, st.N, method, st.N)
+						rec := member(st)
+						if st.Op == "batch" {
+							var ms []string
+							for _, m := range st.Batch {
+								ms = append(ms, member(m))
+							}
+							rec = "[" + strings.Join(ms, ",") + "]"
+						}
 						select {
 						case c.sendQ <- []byte(rec):
 						default:
@@ -677,6 +702,12 @@ func run(t *testing.T, sc Scenario) engine.Verdict {
 		}
 	}
 	// after the context ended every parked handler saw a cancelled context
+	epilogueSeq := -1
+	for _, e := range evs {
+		if e.kind == "epilogue" {
+			epilogueSeq = e.seq
+		}
+	}
 	if cancelSeq >= 0 {
 		parked := map[int]bool{}
 		seen := map[int]bool{}
@@ -709,6 +740,12 @@ func run(t *testing.T, sc Scenario) engine.Verdict {
 			}
 			if entered < cancelSeq && (exited < 0 || exited > cancelSeq) && !seen[n] && !racingStep(sc, evs, cancelSeq) {
 				return fail("server-not-stopped-at-context-end", "handler nonce %d was running when the context ended but never saw a cancelled context", n)
+			}
+			// a call whose handler only started after the context had ended (it had
+			// been waiting behind a notification) and then stayed until the script
+			// let everybody go: its server had been stopped long before
+			if epilogueSeq > cancelSeq && entered > cancelSeq && entered < epilogueSeq && (exited < 0 || exited > epilogueSeq) && !seen[n] && !racingStep(sc, evs, cancelSeq) {
+				return fail("server-not-stopped-at-context-end", "handler nonce %d started after the context had ended, stayed until the end of the script and never saw a cancelled context", n)
 			}
 		}
 	}
@@ -850,9 +887,20 @@ func genScenarioMode(t *rapid.T, netMode bool) Scenario {
 		case roll < 55 && len(open) > 0 && pushMode && rapid.IntRange(0, 3).Draw(t, "cbnote") == 0:
 			nonce++
 			st = Step{Op: "cbnote", K: rapid.SampledFrom(open).Draw(t, "conn"), N: nonce}
+		case roll < 55 && len(open) > 0 && rapid.IntRange(0, 4).Draw(t, "asbatch") == 0:
+			// one array: notifications and calls side by side (they may run concurrently)
+			st = Step{Op: "batch", K: rapid.SampledFrom(open).Draw(t, "conn")}
+			for j, m := 0, rapid.IntRange(2, 3).Draw(t, "members"); j < m; j++ {
+				nonce++
+				mem := Step{Op: "call", N: nonce, Gate: rapid.Bool().Draw(t, "gate"), Note: rapid.IntRange(0, 2).Draw(t, "note") != 0}
+				if mem.Gate {
+					parked = append(parked, nonce)
+				}
+				st.Batch = append(st.Batch, mem)
+			}
 		case roll < 55 && len(open) > 0:
 			nonce++
-			st = Step{Op: "call", K: rapid.SampledFrom(open).Draw(t, "conn"), N: nonce, Gate: rapid.Bool().Draw(t, "gate")}
+			st = Step{Op: "call", K: rapid.SampledFrom(open).Draw(t, "conn"), N: nonce, Gate: rapid.Bool().Draw(t, "gate"), Note: rapid.IntRange(0, 3).Draw(t, "note") == 0}
 			if st.Gate {
 				parked = append(parked, nonce)
 			}
